@@ -7,6 +7,15 @@ from kernelprop import *
 import oracle_c19
 
 
+def more_streams(c, rng, tier, results):
+    """the cheap profiles whose interesting interleavings are rare get many more programs"""
+    n = 500 if tier == "quick" else 8000
+    res = {}
+    for prof in ("tnotify", "tmpsc", "tlocks"):
+        res["more_" + prof] = run_stream("c19m_" + prof, gen.batch(rng.next(), prof, n, f"c19m_{prof}_"), "trace")
+    return res, apply_oracle(res, oracle_c19.o_tokio)
+
+
 def run(tier, seed):
     return run_kernel_prop("C19", tier, seed, ["ShuttleProofs.C19"], "ShuttleProofs.C19Audit", None,
                            ["ShuttleProofs/C19.lean"] + ["ShuttleModel/Wrap/" + f for f in ("Tokio.lean", "TokioBase.lean", "TokioMpsc.lean", "TokioOneshot.lean", "TokioWatch.lean", "TokioNotify.lean", "TokioLocks.lean")],
@@ -15,7 +24,7 @@ def run(tier, seed):
                            "watch_latest_and_notified, notify_at_most_one_permit, notify_one_wakes_at_most_one, notify_waiters_wakes_all_current, notify_never_lost_partial "
                            "(the full statement is false: F14, known finding), tokio_locks_exclusion / fifo as corollaries of C18; spawn/JoinHandle/abort: see C17. "
                            "Not driven: broadcast, OnceCell, select!, time, the *_owned variants, entry points that are unimplemented!() in the wrapper",
-                           profiles=["tmpsc", "tnotify", "twatch", "toneshot", "tlocks", "tmix"], per_quick=120, lemma_prefixes=("Tokio",))
+                           profiles=["tmpsc", "tnotify", "twatch", "toneshot", "tlocks", "tmix"], per_quick=120, lemma_prefixes=("Tokio",), extra=more_streams)
 
 
 def replay(path):
